@@ -427,4 +427,113 @@ theorem stages_not_nested_before_fix_N1 :
   ⟨⟨[]⟩, { docIsText := true, syntaxError := true, valid := true, opselOk := true, varsOk := true,
            serial := false, blockingExecutor := true, fields := [], sched := [] }, by decide⟩
 
+
+/-! ## order of the events of one field -/
+
+/-- the events of a field in the order the statement requires: start hook, middlewares entered
+    (last one first), resolver invoked, resolver returned / raised, end hook -/
+def order (cfg : Cfg) (n : Resolved) : List Ev :=
+  [Ev.hook (.field n.path true)] ++
+  (if n.o = .argError then []
+   else cfg.mws.reverse.map (fun i => Ev.mwEnter i n.path)
+        ++ [Ev.call n.path, if n.o = .raises then Ev.raise n.path else Ev.ret n.path]) ++
+  [Ev.hook (.field n.path false)]
+
+mutual
+/-- no resolver of the tree is deferred by the runtime -/
+def syncNode : Node → Bool
+  | .mk _ d _ c => !d && syncComp c
+def syncComp : Comp → Bool
+  | .leaf => true
+  | .null => true
+  | .obj fs => syncNodes fs
+  | .list items => syncItems items
+def syncNodes : List Node → Bool
+  | [] => true
+  | n :: ns => syncNode n && syncNodes ns
+def syncItems : List Comp → Bool
+  | [] => true
+  | c :: cs => syncComp c && syncItems cs
+end
+
+mutual
+private theorem sField (cfg : Cfg) : ∀ (path : Path) (n : Node), syncNode n = true →
+    startField cfg path n = (blockingResolveField cfg path n, [])
+  | path, .mk key d o c, h => by
+    simp only [syncNode, Bool.and_eq_true, Bool.not_eq_true'] at h
+    obtain ⟨hd, hc⟩ := h
+    subst hd
+    cases o with
+    | returns => simp [startField, blockingResolveField, sComp cfg (path ++ [.key key]) c hc]
+    | _ => simp [startField, blockingResolveField]
+private theorem sComp (cfg : Cfg) : ∀ (p : Path) (c : Comp), syncComp c = true →
+    startComplete cfg p c = (blockingComplete cfg p c, [])
+  | p, .leaf, _ => by simp [startComplete, blockingComplete]
+  | p, .null, _ => by simp [startComplete, blockingComplete]
+  | p, .obj fs, h => by simpa [startComplete, blockingComplete] using sFields cfg p fs (by simpa [syncComp] using h)
+  | p, .list items, h => by
+    simpa [startComplete, blockingComplete] using sItems cfg p 0 items (by simpa [syncComp] using h)
+private theorem sFields (cfg : Cfg) : ∀ (p : Path) (fs : List Node), syncNodes fs = true →
+    startFields cfg p fs = (blockingFields cfg p fs, [])
+  | p, [], _ => by simp [startFields, blockingFields]
+  | p, n :: ns, h => by
+    simp only [syncNodes, Bool.and_eq_true] at h
+    simp [startFields, blockingFields, sField cfg p n h.1, sFields cfg p ns h.2]
+private theorem sItems (cfg : Cfg) : ∀ (p : Path) (i : Nat) (cs : List Comp), syncItems cs = true →
+    startItems cfg p i cs = (blockingItems cfg p i cs, [])
+  | p, i, [], _ => by simp [startItems, blockingItems]
+  | p, i, c :: cs, h => by
+    simp only [syncItems, Bool.and_eq_true] at h
+    simp [startItems, blockingItems, sComp cfg (p ++ [.idx i]) c h.1, sItems cfg p (i + 1) cs h.2]
+end
+
+private theorem drain_nil (cfg : Cfg) (fuel : Nat) (sched : List Nat) : drain cfg fuel [] sched = ([], sched) := by
+  cases fuel <;> simp [drain]
+
+private theorem execSerial_sync (cfg : Cfg) : ∀ (fs : List Node) (sched : List Nat), syncNodes fs = true →
+    execSerial cfg fs sched = blockingFields cfg [] fs
+  | [], sched, _ => by simp [execSerial, blockingFields]
+  | n :: ns, sched, h => by
+    simp only [syncNodes, Bool.and_eq_true] at h
+    simp [execSerial, blockingFields, sField cfg [] n h.1, drain_nil, execSerial_sync cfg ns sched h.2]
+
+/-- when the runtime defers no resolver (`BlockingRuntime`, or only synchronous resolvers on
+    asyncio), `Executor` produces exactly the trace of `BlockingExecutor`, event for event -/
+theorem executor_eq_blocking_when_not_deferred (cfg : Cfg) (r : Request) (h : syncNodes r.fields = true) :
+    execBody cfg r = blockingFields cfg [] r.fields := by
+  unfold execBody
+  split
+  · rfl
+  · split
+    · exact execSerial_sync cfg _ _ h
+    · simp [execParallel, sFields cfg [] r.fields h, drain_nil]
+
+/-- FULL ordering statement for ARBITRARY completion orders (not proved in this round, see
+    `field_hooks_ordered_partial`): the events of every resolved field occur in the required
+    order as a subsequence of the trace, whatever the schedule. -/
+def FieldOrderAllSchedules : Prop :=
+  ∀ (cfg : Cfg) (r : Request) (n : Resolved), n ∈ nodesOfFields [] r.fields → (order cfg n).Sublist (execBody cfg r)
+
+/-- the full statement on an instance with three deferred fields, for ALL 27 schedules of length 3 -/
+example : ∀ a ∈ [0, 1, 2], ∀ b ∈ [0, 1, 2], ∀ c ∈ [0, 1, 2], ∀ n ∈ nodesOfFields [] demoFields,
+    (order ⟨[0]⟩ n).Sublist (execBody ⟨[0]⟩ (demoReq [a, b, c])) := by decide
+
+/-- **field order, sequential configurations** (`_partial`: what is missing is the same order
+    for runtimes that defer resolvers, `FieldOrderAllSchedules`; there the COUNT half is proved
+    for every schedule by `field_hooks_once`, the ORDER half is tied by the correspondence, which
+    compares whole traces under all schedules of a fixed forest and random schedules). `BlockingExecutor`, and `Executor` whenever no
+    resolver is deferred: the block of every resolved field occurs CONTIGUOUSLY in the trace:
+    start hook, middlewares in (last one outermost), resolver invoked, returned / raised,
+    middlewares out, end hook — nothing of another field in between. -/
+theorem field_hooks_ordered_partial (cfg : Cfg) (r : Request)
+    (h : r.blockingExecutor = true ∨ syncNodes r.fields = true)
+    (n : Resolved) (hn : n ∈ nodesOfFields [] r.fields) :
+    chunk cfg n <:+: execBody cfg r := by
+  have : execBody cfg r = blockingFields cfg [] r.fields := by
+    rcases h with h | h
+    · simp [execBody, h]
+    · exact executor_eq_blocking_when_not_deferred cfg r h
+  rw [this, field_hooks_once_blocking, List.flatMap_def]
+  exact List.infix_of_mem_flatten (List.mem_map_of_mem hn)
+
 end PyGql.Props.C16
